@@ -183,7 +183,7 @@ def run(ctx):
                 c = [x for x in sides[:2] if x[0] == "call" and x[1] == t2 and SEL.unref(x[2][0])[0] == "cs" and SEL.unref(x[2][0])[2] == "Module"]
                 tf = [x for x in sides[:2] if SEL.canon_place(x) == fld(fld(fld(deref(SEL.ELEM), 0), 0), 0)]
                 pred_ok = len(c) == 1 and len(tf) == 1
-            map_ok = SEL.is_cast_of_elem(sel["map"], ty_suffix="ModuleTag")
+            map_ok = SEL.is_cast_of_elem(sel["map"], ty_suffix="ModuleTag", via_cast=SEL.calls_cast_only(F, mn[0]))
             g = it_ok and pred_ok and map_ok
             why = "form %s: iter ok=%s predicate ok=%s map ok=%s" % (sel["form"], it_ok, pred_ok, map_ok)
         ctx.check(g, "T6", "ModuleIter::next", "ModuleIter::next() = inner TagIter .find(|t| u32 image of t.typ == u32 image of TagType::Module) .map(|t| t.cast::<ModuleTag>())",
